@@ -217,6 +217,7 @@ impl RecCtx<'_> {
                 judge_compact_size: false,
                 track_pins: false,
                 soft: vec![],
+                leak_latched: false,
             };
             for (k, (id, snap)) in cp.psp.iter().enumerate() {
                 w.psp.insert(
